@@ -526,6 +526,15 @@ def class_g(rng):
 def class_e(rng):
     """long runs of one token or character: what makes a careless regular
     expression or a recursive descent go exponential or overflow"""
+    if rng.random() < 0.06:
+        # one number of thousands of digits, wherever a number may stand
+        digits = rng.choice('123456789') * rng.choice([4299, 4300, 4301, 5000,
+                                                        9000])
+        return rng.choice(['hue {}', 'print {}', 'assign zz_big {}',
+                           'print {{ {} + 1 }}', 'define zz_m {}',
+                           'repeat {} break', 'set "Strip" zone {}',
+                           'time {}', 'print {{ 1.{} }}', 'hue -{}']
+                          ).format(digits)
     k = rng.choice([20, 40, 80, 200, 500, 1500, 5000])
     unit = rng.choice(['\\', '\\a', '\\"', '{', '(', '[', '-', '- ', '{ ',
                        '( ', '[ f ', 'not ', '"', '"a', '#', '*', ':', '*:',
